@@ -130,8 +130,8 @@ static Array::Ptr ArrayMap(const Function::Ptr& function)
 	ArrayData result;
 
 	ObjectLock olock(self);
-	for (const Value& item : self) {
-		result.push_back(function->Invoke({ item }));
+	for (size_t i = 0; i < self->GetLength(); i++) {
+		result.push_back(function->Invoke({ self->Get(i) }));
 	}
 
 	return new Array(std::move(result));
@@ -173,7 +173,8 @@ static Array::Ptr ArrayFilter(const Function::Ptr& function)
 	ArrayData result;
 
 	ObjectLock olock(self);
-	for (const Value& item : self) {
+	for (size_t i = 0; i < self->GetLength(); i++) {
+		Value item = self->Get(i);
 		if (function->Invoke({ item }))
 			result.push_back(item);
 	}
@@ -192,8 +193,8 @@ static bool ArrayAny(const Function::Ptr& function)
 		BOOST_THROW_EXCEPTION(ScriptError("Filter function must be side-effect free."));
 
 	ObjectLock olock(self);
-	for (const Value& item : self) {
-		if (function->Invoke({ item }))
+	for (size_t i = 0; i < self->GetLength(); i++) {
+		if (function->Invoke({ self->Get(i) }))
 			return true;
 	}
 
@@ -211,8 +212,8 @@ static bool ArrayAll(const Function::Ptr& function)
 		BOOST_THROW_EXCEPTION(ScriptError("Filter function must be side-effect free."));
 
 	ObjectLock olock(self);
-	for (const Value& item : self) {
-		if (!function->Invoke({ item }))
+	for (size_t i = 0; i < self->GetLength(); i++) {
+		if (!function->Invoke({ self->Get(i) }))
 			return false;
 	}
 
